@@ -10,6 +10,7 @@ CONSTANTS
   HasReader = FALSE
   ClosesSocket = FALSE
   PopAtomic = FALSE
+  ParkWakes = "conn"
   Noise = {"silent", "unsolicited", "garbage"}
 INVARIANTS NoFalseError SlotsSane OnceEach SockOnce DoneOnceIfReaderOnly
 PROPERTIES CloseCompletes
